@@ -351,7 +351,7 @@ def task_transforms(ctx, cfg):
                      b, conf, bits=9)
 
 
-def task_pe(ctx, cfg, levels, lname, kind, what):
+def task_pe(ctx, cfg, levels, lname, kind, what, method=None):
   from dinosaur import primitive_equations as pe, time_integration as ti, filtering
   coords = models.make_coords(cfg, levels)
   grid = coords.horizontal
@@ -361,7 +361,7 @@ def task_pe(ctx, cfg, levels, lname, kind, what):
   base, zm = models.admissible_masks(grid)
   oro = rng.uniform(-0.3, 0.3, grid.modal_shape) * base
   cls = pe.MoistPrimitiveEquations if kind == 'moist' else pe.PrimitiveEquations
-  eq = cls(np.linspace(1.0, 1.4, K), oro, coords, specs)
+  eq = cls(np.linspace(1.0, 1.4, K), oro, coords, specs, **({'vertical_matmul_method': method} if method else {}))
   ctx.encoded(cls.explicit_terms, cls.implicit_terms, cls.implicit_inverse, ti.backward_forward_euler, ti.semi_implicit_leapfrog)
   tracers = ['specific_humidity'] if kind == 'moist' else []
 
@@ -372,11 +372,14 @@ def task_pe(ctx, cfg, levels, lname, kind, what):
   def leaves(s):
     return (s.vorticity, s.divergence, s.temperature_variation, s.log_surface_pressure) + tuple(s.tracers[k] for k in tracers)
   builder = lambda sp, p: models.pe_state_vars(sp, coords, tracers=tracers, prefix=p, tracer_box={'specific_humidity': 0.01})
-  conf = dict(grid=grids.cfg_name(cfg), levels=lname, kind=kind, entry=what)
+  conf = dict(grid=grids.cfg_name(cfg), levels=lname, kind=kind, entry=what, **({'vertical_matmul_method': method} if method else {}))
   if what == 'explicit':
     f = lambda *a: leaves(eq.explicit_terms(mk(*a)))
   elif what == 'implicit':
     f = lambda *a: leaves(eq.implicit_terms(mk(*a))) + leaves(eq.implicit_inverse(mk(*a), 0.1))
+  elif what == 'implicit_blockwise':
+    # the cumulative-sum ('sparse') vertical operators and the blockwise solve built on them
+    f = lambda *a: leaves(eq.implicit_terms(mk(*a))) + leaves(eq.implicit_inverse(mk(*a), 0.1, method='blockwise'))
   elif what == 'vertical_velocity':
     # diagnostic vertical velocity (it also sets the departure points of the semi-Lagrangian vertical advection step) and the diagnostic state
     def f(*a):
@@ -675,9 +678,11 @@ def make_tasks(tier, seed):
            dict(name='pe-dry-euler-step', fn='task_pe', kw=dict(cfg=cfg, levels=LS['dy2'].tolist(), lname='dy2', kind='dry', what='euler_step')),
            dict(name='sw-euler', fn='task_sw', kw=dict(cfg=dict(M=2, L=3, nlon=6, nlat=4), integrator='backward_forward_euler')),
            dict(name='sw-euler-fast-padded', fn='task_sw', kw=dict(cfg=cfgp2, integrator='backward_forward_euler'))]
+  tasks.append(dict(name='pe-dry-implicit-sparse', fn='task_pe', kw=dict(cfg=cfgp2, levels=LS['dy3'].tolist(), lname='dy3', kind='dry', what='implicit_blockwise', method='sparse')))
   tasks.append(dict(name='pe-moist-explicit-small', fn='task_pe', kw=dict(cfg=dict(M=2, L=3, nlon=6, nlat=4), levels=LS['dy2'].tolist(), lname='dy2', kind='moist', what='explicit')))
   tasks.append(dict(name='held-suarez', fn='task_held_suarez', kw=dict(cfg=dict(M=2, L=3, nlon=6, nlat=4), levels=LS['dy2'].tolist(), lname='dy2')))
   if tier != 'quick':
+    tasks.append(dict(name='pe-moist-explicit-small-sparse', fn='task_pe', kw=dict(cfg=dict(M=2, L=3, nlon=6, nlat=4), levels=LS['dy3'].tolist(), lname='dy3', kind='moist', what='explicit', method='sparse')))
     tasks.append(dict(name='held-suarez-M3-dy3', fn='task_held_suarez', kw=dict(cfg=cfg, levels=LS['dy3'].tolist(), lname='dy3')))
   tasks.append(dict(name='upwind-derivative-dy3', fn='task_upwind_derivative', kw=dict(lname='dy3', levels=LS['dy3'].tolist())))
   if tier != 'quick':
